@@ -115,7 +115,10 @@ def replay_crossing(payload):
 
 def native_check(payload):
     from contracts.gridcheck import run_families
-    return run_families(payload)
+    r = run_families(payload)
+    r['reproduced'] = bool(r['c04'])
+    r['observed'] = r['c04'][:4]
+    return r
 
 
 def bounded_checks(tier, seed):
